@@ -36,6 +36,10 @@ def check(ctx):
         for s in corpus:
             ps.insert(0, {"mods": {"file:///w/main.oal": s}, "main": "file:///w/main.oal", "features": ["corpus"], "ast": None})
     progs.feature_stats(ctx, ps)
+    if not ctx.replay:
+        # C06_evaluation_has_one_result is a theorem about Model/Eval.v: the evaluator tie (and its stratification hypothesis)
+        from . import evaltie
+        evaltie.run(ctx, ps[: (500 if ctx.thorough else 100)])
     # run A: each program three times in process, programs interleaved in one process per shard
     a = progs.compile_many([dict(p, repeat=3) for p in ps])
     # run B..: fresh processes, different shard composition (reversed order => different history)
